@@ -279,13 +279,26 @@ theorem regText_created {K : Consts} (hK : ConstsOk K) {users : List Str} {P Q :
     simp [isReg, h1, h2]
   simp [List.find?_cons, hreg, norm_text_some c.text c.ne]
 
+theorem Issued.answered {K : Consts} {users : List Str} {P Q : DB} {u : Str} {n : NameId}
+    (i : Issued K users P u n Q) (inv : Inv K users P) (hu : u ∈ users) : answered Q (some u) n = true := by
+  unfold Ident.answered
+  rw [i.owned inv hu]
+  simp only [Bool.true_and, List.contains_iff_mem]
+  cases i with
+  | existing hQ hm =>
+    have hn : n.norm = n := by
+      rw [held_eq] at hm
+      exact ((mem_heldOf_good (inv.good u hu)).mp hm).2.1
+    rw [hQ, hn]; exact hm
+  | created t c => rw [c.heldU]; simp
+
 theorem issuedStep {K : Consts} {users : List Str} (watch : List NameId) {P : State} (inv : Inv K users P.db)
     {op : Op} {u : Str} (hu : u ∈ users) {n : NameId} {Q : DB} (i : Issued K users P.db u n Q)
     (ht : touched op (.nid n) = n.text)
-    (hr : ownedBy Q n.text (some u) = true → resOk K users P.db Q op (.nid n) = true)
+    (hr : answered Q (some u) n = true → resOk K users P.db Q op (.nid n) = true)
     (hs : sdbOk watch P { P with db := Q } op (.nid n) = true) :
     specStep K users watch P op (.nid n) { P with db := Q } = true ∧ Inv K users Q :=
-  ⟨specStep_of (i.inv inv) (by rw [ht]; exact i.frame) (hr (i.owned inv hu)) hs, i.inv inv⟩
+  ⟨specStep_of (i.inv inv) (by rw [ht]; exact i.frame) (hr (i.answered inv hu)) hs, i.inv inv⟩
 
 theorem step_spec {K : Consts} (hK : ConstsOk K) {cfg : Cfg} {users : List Str} (watch : List NameId) {P : State}
     (inv : Inv K users P.db) (op : Op) (hop : opOk users cfg op = true) (hst : stOk K cfg P.db op = true) :
@@ -308,17 +321,13 @@ theorem step_spec {K : Consts} (hK : ConstsOk K) {cfg : Cfg} {users : List Str} 
         refine issuedStep watch inv hu (.existing rfl hm) rfl ?_ (by simp [sdbOk])
         intro hown
         obtain ⟨t, h1, _, _⟩ := inv.owner u hu n hm
-        have hown' := hown
-        rw [h1] at hown'
-        simp [resOk, hown', hsq, regText, regTextIn, hreg, h1, hpf]
+        simp [resOk, hown, hsq, regText, regTextIn, hreg, h1, hpf]
       · refine issuedStep watch inv hu (.created t c) rfl ?_ (by simp [sdbOk])
         intro hown
         subst hs; subst hq
         have h1 := regText_created hK c hf hnone
         have h2 : regText K P.db u n.spq n.nq = none := by simp [regText, regTextIn, hnone]
-        have hown' := hown
-        rw [c.text] at hown'
-        simp [resOk, hown', sameQual_self, h1, h2, c.text, isFresh_of inv c.fresh, hf]
+        simp [resOk, hown, sameQual_self, h1, h2, c.text, isFresh_of inv c.fresh, hf]
   | transient u spq nq cands =>
     simp only [opOk, Bool.and_eq_true] at hop
     have hu := mem_users hop.1
@@ -335,9 +344,7 @@ theorem step_spec {K : Consts} (hK : ConstsOk K) {cfg : Cfg} {users : List Str} 
       · exact absurd hf.symm hK.2
       · refine issuedStep watch inv hu (.created t c) rfl ?_ (by simp [sdbOk])
         intro hown
-        have hown' := hown
-        rw [c.text] at hown'
-        simp [resOk, hown', c.text, isFresh_of inv c.fresh, hq1, hq2]
+        simp [resOk, hown, c.text, isFresh_of inv c.fresh, hq1, hq2]
   | getNameid u fmt spq nq cands =>
     simp only [opOk, Bool.and_eq_true] at hop
     have hu := mem_users hop.1
